@@ -557,11 +557,16 @@ def gen_reconnect(rng, knobs=None):
     elif who == 'on_timeout':
         opts['reconnect_on_timeout'] = rounds
     prog = [['start'], ['pump']]
+    nref = 0          # index the next request step will get
     for rnd_i in range(rounds):
+        chans = []    # channels of the client (with an application publisher) opened on the connection that is about to end
         for _ in range(rng.randint(0, 3)):
             kind = rng.choice(['rr', 'stream', 'channel', 'fnf'])
             ep = rng.choice(['c', 'c', 's'])
             sp = spec(rng, big=rng.random() < 0.3)
+            if kind == 'channel' and ep == 'c':
+                chans.append(nref)
+            nref += 1
             if kind == 'rr':
                 prog.append(['rr', ep, sp, {'mode': 'later'}])
             elif kind == 'fnf':
@@ -602,6 +607,7 @@ def gen_reconnect(rng, knobs=None):
                 for _ in range(rng.randint(1, 2)):
                     kind = rng.choice(['rr', 'rr', 'stream', 'fnf'])
                     sp = spec(rng, big=False)
+                    nref += 1
                     if kind == 'rr':
                         prog.append(['rr', 'c', sp, {'mode': 'immediate', 'resp': spec(rng, big=False)}])
                     elif kind == 'fnf':
@@ -615,6 +621,15 @@ def gen_reconnect(rng, knobs=None):
                 if rng.random() < 0.3:
                     prog.append(['reconnect'])
         prog.append(['pump'])
+        if chans and rng.random() < 0.6:
+            # a request on the new connection (it gets the first stream id again), and the application publisher of a channel
+            # that was pending on the old one signals: nothing of the old channel may reach the new connection
+            prog.append(['rr', 'c', spec(rng, big=False), {'mode': 'later'}])
+            ref = rng.choice(chans)
+            spx = spec(rng, big=False)
+            prog.append(rng.choice([['complete', ref, 'req'], ['emit', ref, 'req', spx[0], spx[1], 0], ['emit', ref, 'req', spx[0], spx[1], 1]]))
+            prog.append(['pump'])
+            nref += 1
         prog.append(['advance', period + 10])
         prog.append(['pump'])
     prog.append(['probe', 'c', spec(rng, big=False), spec(rng, big=False)])
